@@ -20,6 +20,17 @@ import (
 )
 
 type namedKey string
+type namedInt int
+type namedBool bool
+type namedFloat float64
+type namedSlice []any
+type namedMap map[string]any
+type namedStr string
+type embInner struct{ X int }
+type embOuter struct {
+	*embInner
+	Y int
+}
 
 type plainStruct struct {
 	A    int
@@ -67,6 +78,9 @@ func weirdEnv() map[string]any {
 		"mptr": map[string]*int{"a": &n, "z": nil}, "parr": &[]any{1, nil}, "pmap": &map[string]any{"k": nilp},
 		// maps keyed by a named string type; an ordered map with keys that == cannot compare
 		"mnk": map[namedKey]any{"k": 1, "size": 2}, "amnk": []any{map[namedKey]any{"k": 2}, map[namedKey]any{"k": 1}, map[namedKey]int{"k": 0}},
+		// a named string type; a struct whose embedded pointer is nil; named numeric and boolean types
+		"nstr": namedStr("a b c"), "emb": embOuter{Y: 1}, "pemb": &embOuter{Y: 2}, "nint": namedInt(7), "nbool": namedBool(true), "nflt": namedFloat(2.5),
+		"nslice": namedSlice{1, "a"}, "nmap": namedMap{"k": 1},
 		"msw": yaml.MapSlice{{Key: []any{1}, Value: "v"}, {Key: map[string]any{"k": 1}, Value: 2}, {Key: "k", Value: 3}}, "one": []any{1},
 	}
 }
@@ -74,7 +88,8 @@ func weirdEnv() map[string]any {
 var fuzzNames = []string{"ptrs", "pstrs", "pstructs", "anyptrs", "mptr", "parr", "pmap", "ptrs | reverse", "anyptrs[3]", "mptr.z", "pmap.k", "st", "pst", "nilp", "nils", "pn", "ps", "tm", "by", "ms", "mik", "mif", "af", "u8", "i64", "u64", "f32", "big", "neg0", "dr", "drnil", "drdr",
 	"arr", "strs", "ints", "m", "e", "s", "u", "n", "z", "f", "t", "nl", "long", "nested", "undefined", "forloop", "st.A", "st.C", "pst.D.k", "st.E.B", "st.nm", "st.Method",
 	"st.priv", "ms.k", "ms[2]", "mik[1]", "arr[4][0]", "arr[-1]", "arr[99]", "nested.a.b[0].c", "m.size", "m.first", "arr.first", "arr.last.x", "s.size", "n.size", "by.size",
-	"tm.Year", "dr.A", "drdr.first", "u64", "pn", "mnk", "mnk.k", "mnk['k']", "amnk", "amnk | sort: 'k'", "amnk | map: 'k'", "msw", "msw[one]", "msw[m]", "msw.k", "one", "(1..n)", "(n..1)", "(1..3)", "(f..t)", "(1..100000)"}
+	"tm.Year", "dr.A", "drdr.first", "u64", "pn", "mnk", "mnk.k", "mnk['k']", "amnk", "amnk | sort: 'k'", "amnk | map: 'k'", "msw", "msw[one]", "msw[m]", "msw.k", "one", "nstr", "nstr.size", "nstr | size", "emb.X", "pemb.X", "emb.Y", "nint", "nbool", "nflt", "nslice", "nslice.first", "nmap", "nmap.k",
+	"(0..9223372036854775807)", "(-9223372036854775807..9223372036854775807)", "(9223372036854775806..9223372036854775807)", "(1..n)", "(n..1)", "(1..3)", "(f..t)", "(1..100000)"}
 var fuzzLits = []string{"'k'", "1", "-1", "0", "2.5", "99999999999999999999", "1.5e3", "'a'", "\"b\"", "''", "nil", "true", "false", "empty", "blank", "-0", "00012", "1..2", "'%Y'", "'$1'", "100000", "-99999999999"}
 var fuzzFilterNames = []string{"compact", "reverse", "first", "last", "uniq", "abs", "ceil", "floor", "size", "escape", "newline_to_br", "strip_html", "strip_newlines",
 	"strip", "lstrip", "rstrip", "url_encode", "url_decode", "json", "inspect", "type", "default", "concat", "join", "map", "sort", "sort_natural", "modulo", "minus",
@@ -294,7 +309,8 @@ var pairForms = []string{
 }
 
 var pairNames = []string{"st", "pst", "nilp", "nils", "pn", "ps", "tm", "by", "ms", "mik", "mif", "af", "u8", "i64", "u64", "f32", "big", "neg0", "dr", "drnil", "drdr",
-	"arr", "strs", "ints", "m", "e", "s", "u", "n", "z", "f", "t", "nl", "nested", "ptrs", "pstrs", "pstructs", "anyptrs", "mptr", "parr", "pmap", "st.C", "st.D", "arr[4]", "nested.a"}
+	"arr", "strs", "ints", "m", "e", "s", "u", "n", "z", "f", "t", "nl", "nested", "ptrs", "pstrs", "pstructs", "anyptrs", "mptr", "parr", "pmap", "st.C", "st.D", "arr[4]", "nested.a",
+	"nstr", "emb", "nint", "nbool", "nslice", "nmap", "amnk", "msw"}
 
 func genWeirdPairs(r *rand.Rand, i int) J {
 	n := len(pairNames)
